@@ -473,4 +473,66 @@ example := C12_one_cluster_decomposed ⟨fun u => decide (u < 0x2000), fun _ => 
 example := C12_one_cluster ⟨fun u => decide (u < 0x2000), fun _ => false, false, 0⟩ rfl [] [⟨0x1161, 1, 0⟩, ⟨0x11A8, 2, 0⟩] []
   ⟨0x1100, 0, 0⟩ [(0x1100, 1), (0x1161, 2), (0x11A8, 3)] (by decide) (by decide) (by simp) (by simp)
 
+/-! ## C12_planner — the Hangul shaper stays in charge unless `morx` is APPLIED
+
+  Everything above is about `preprocess_text_hangul`, which runs only when the plan's shaper is the Hangul shaper.
+  `planShaper cat e` is the planner's choice (`hb_ot_shape_planner_t::new`) from the shaper `cat` of the script and the
+  environment `e` = (font has morx, font has GSUB, direction is horizontal).  The property's quantifier leaves out the
+  runs that AAT shapes (`applyMorx e`: morx present and — harfbuzz#2124 — the text horizontal or no GSUB to prefer);
+  on every other run the script's shaper must be kept, in particular for vertical text on a font with GSUB, morx or not,
+  and whatever other tables (kern, GPOS, GDEF) the font has: they are not read (`PlanEnv` has no field for them; the
+  `hangul-plan` correspondence varies them on the crate). -/
+
+/-- the script's shaper is replaced only by the dumber shaper and only when morx is applied -/
+theorem C12_planner_keeps_shaper (cat : Shaper) (e : PlanEnv) (h : applyMorx e = false) :
+    planShaper cat e = cat := by
+  simp [planShaper, h]
+
+/-- morx is applied exactly on fonts with morx, for horizontal text or when there is no GSUB (harfbuzz#2124) -/
+theorem C12_planner_apply_morx_iff (e : PlanEnv) :
+    applyMorx e = true ↔ e.hasMorx = true ∧ (e.horizontal = true ∨ e.hasGsub = false) := by
+  cases e with | mk m g h => cases m <;> cases g <;> cases h <;> simp [applyMorx]
+
+/-- vertical text on a font with GSUB: the script's shaper is kept whether or not the font ALSO has a morx table -/
+theorem C12_planner_vertical_gsub (cat : Shaper) (e : PlanEnv) (hv : e.horizontal = false) (hg : e.hasGsub = true) :
+    planShaper cat e = cat := by
+  apply C12_planner_keeps_shaper
+  simp [applyMorx, hv, hg]
+
+/-- no morx table: the script's shaper is kept in every direction, with or without GSUB -/
+theorem C12_planner_no_morx (cat : Shaper) (e : PlanEnv) (hm : e.hasMorx = false) : planShaper cat e = cat := by
+  apply C12_planner_keeps_shaper
+  simp [applyMorx, hm]
+
+/-- for Hangul both directions: the plan runs the Hangul shaper iff morx is not applied -/
+theorem C12_planner_hangul_iff (e : PlanEnv) : planShaper Shaper.hangul e = Shaper.hangul ↔ applyMorx e = false := by
+  cases h : applyMorx e <;> simp [planShaper, h]
+
+/-- the only other outcome is the dumber shaper, and then the run is one the property does not speak about -/
+theorem C12_planner_only_downgrade (cat : Shaper) (e : PlanEnv) :
+    planShaper cat e = cat ∨
+      (planShaper cat e = Shaper.dumber ∧ e.hasMorx = true ∧ (e.horizontal = true ∨ e.hasGsub = false)) := by
+  cases h : applyMorx e
+  · exact Or.inl (C12_planner_keeps_shaper cat e h)
+  · by_cases hc : cat = Shaper.default
+    · left; simp [planShaper, hc]
+    · right; exact ⟨by simp [planShaper, h, hc], (C12_planner_apply_morx_iff e).1 h⟩
+
+example := C12_planner_keeps_shaper Shaper.hangul ⟨true, true, false⟩ (by decide)
+example := C12_planner_vertical_gsub Shaper.hangul ⟨true, true, false⟩ rfl rfl
+example := C12_planner_no_morx Shaper.hangul ⟨false, false, true⟩ rfl
+example : planShaper Shaper.hangul ⟨true, true, true⟩ = Shaper.dumber := by decide
+
+/-- the environments × directions the compiled crate is probed on: (has GSUB, has morx, direction 0 LTR 1 RTL 2 TTB 3 BTT) -/
+def plannerProbeKeys : List (Bool × Bool × Nat) :=
+  [false, true].flatMap fun g => [false, true].flatMap fun m => [0, 1, 2, 3].map fun d => (g, m, d)
+
+/-- the compiled crate's planner, probed with script Hang on all 16 (GSUB, morx) × direction combinations, picks the
+shaper and the morx decision of the model (regenerated on every run: a planner keyed on anything else breaks this) -/
+theorem C12_gen_planner_probe :
+    Gen.Hangul.plannerProbe = plannerProbeKeys.map fun (g, m, d) =>
+      let e : PlanEnv := ⟨m, g, dirHorizontal d⟩
+      (g, m, d, (planShaper Shaper.hangul e).code, applyMorx e) := by
+  decide
+
 end RbModel.Hangul
